@@ -154,6 +154,7 @@ def parse_segments(text, version=None, encoding_chars=None, validation_level=Non
                 if not find_groups:
                     segment = parse_segment(s.strip(), version, encoding_chars, validation_level)
                     segments.append(segment)
+                    break
                 else:
                     ref, parents_refs = _get_segment_reference(segment_name, parents_refs)
                     if ref is None:
@@ -195,6 +196,9 @@ def parse_segments(text, version=None, encoding_chars=None, validation_level=Non
                         else:
                             current_parent.add(segment)
                         break
+            else:
+                # no level of the structure has a place for this segment: keep it at the message level
+                segments.append(parse_segment(s.strip(), version, encoding_chars, validation_level))
     return segments
 
 
